@@ -771,6 +771,9 @@ impl PaZipCompressor {
             let end = (start + BLOCK_SIZE).min(input.len());
             let block = &input[start..end];
 
+            // compress_sequential appends to the internal buffer and copies all of it out:
+            // without this the output of block i repeats blocks 0..i
+            self.output_buffer.clear();
             let mut block_output = Vec::new();
             self.compress_sequential(block, &mut block_output)?;
             compressed_blocks.push(block_output);
